@@ -193,6 +193,7 @@ type ttPage struct {
 	blockPos  string // lead | mid
 	blockText string
 	h2Other   string // text of an h2 that has nothing to do with the title
+	dropcap   bool   // the first letter of the headline sits in an element of its own
 }
 
 func (pg ttPage) render(titleRaw, h1Other, mkText string, paras []string) string {
@@ -212,7 +213,11 @@ func (pg ttPage) render(titleRaw, h1Other, mkText string, paras []string) string
 	norm := strings.Join(strings.Fields(titleRaw), " ")
 	switch pg.h1 {
 	case "title":
-		sb.WriteString("<h1>" + ttEsc(norm) + "</h1>")
+		if r, n := utf8.DecodeRuneInString(norm); pg.dropcap && n > 0 && unicode.IsLetter(r) {
+			sb.WriteString(`<h1><span class="dropcap">` + norm[:n] + `</span>` + ttEsc(norm[n:]) + "</h1>")
+		} else {
+			sb.WriteString("<h1>" + ttEsc(norm) + "</h1>")
+		}
 	case "short", "long":
 		sb.WriteString("<h1>" + h1Other + "</h1>")
 	}
@@ -316,7 +321,7 @@ func ttReadSource(doc *html.Node) ttSource {
 		case "h1", "h2", "h3", "p", "div":
 			leaf := true
 			for c := n.FirstChild; c != nil; c = c.NextSibling {
-				if c.Type == html.ElementNode {
+				if c.Type == html.ElementNode && c.Data != "span" { // a drop cap is part of the headline's text
 					leaf = false
 				}
 			}
@@ -370,7 +375,7 @@ func ttObserve(out callOutcome, s ttSource, vocab ttVocab) map[string]interface{
 	o["mktitle"] = mt
 	o["mkatoms"] = ttDecode(mt, vocab)
 	o["eqmk"] = t == mt
-	o["mksrc"] = mt == s.mk
+	o["mksrc"] = mt == s.mk || mt == strings.TrimSpace(s.mk) // the parsers trim the value
 	o["eqtitle"] = t == s.title
 	o["subtitle"] = strings.Contains(s.title, t)
 	o["eqh1"] = s.h1p && t == s.h1
@@ -449,9 +454,20 @@ func runTitle(c Case, e *env) []Event {
 	if pg.h2 == "long" {
 		pg.h2Other = ttRunWords("g", "hg", 6, 4, vocab)
 	}
+	pg.dropcap = g.rng.Intn(4) == 0
 	mkText := ""
 	if pg.mk != "none" {
 		mkText = ttRunWords("m", "mk", 3, 5, vocab)
+		// typography in the markup title: a no-break space, two blanks, blanks at the ends - the title the page
+		// reports and the title of the result are the same string whatever it looks like
+		switch g.rng.Intn(8) {
+		case 0:
+			mkText, deco = strings.Replace(mkText, " ", "&nbsp;", 1), true
+		case 1:
+			mkText, deco = strings.Replace(mkText, " ", "  ", 1), true
+		case 2:
+			mkText, deco = " "+mkText+"  ", true
+		}
 	}
 	paras := []string{g.para(50), g.para(48), g.para(52)}
 
